@@ -86,7 +86,8 @@ def gen_case(rng):
             v = q[f[1]]
             if isinstance(v, str):
                 p[f[0]] = [('S', pick(rng, ['<' + re.escape(v) + '>', '<' + v + '>', v.swapcase(), 'x' + v + 'y', v,
-                                            v.replace('%', 'Z').replace('_', 'Z'), mutate_str(rng, v)]))] + \
+                                            v.replace('%', 'Z').replace('_', 'Z'), mutate_str(rng, v),
+                                            '<<' + v + '>>', '<<' + v + '>>']))] + \
                     (p[f[0]][:1] if rng.random() < 0.3 else [])
         pols.append(p)
     return {'k': k, 'policies': pols, 'inquiry': q}
